@@ -81,7 +81,7 @@ public:
    bool operator ==(const ByteBuffer &rhs) const
    {
       if (GetNumBytes() != rhs.GetNumBytes()) return false;
-      if (this == &rhs) return true;
+      if ((this == &rhs)||(GetNumBytes() == 0)) return true;  // two empty buffers hold the same data, whether or not they have any (unused) memory allocated
 
       const uint8 * myBuf  = GetBuffer();
       const uint8 * hisBuf = rhs.GetBuffer();
